@@ -35,16 +35,26 @@ def run_item(item):
     neg = [is_neg(v) for v in vs]
     spec, terms = S.scd_z3(pos, neg)
     rng = random.Random(N)
+    prelude = std_prelude(N)
+    run_prelude(prelude)
+    HIST = [("get_linear_NCPR", (2,)), ("get_linear_FCR", (2,)), ("get_linear_sigma", (2,)), ("get_countNeg", ()), ("get_phasePlotRegion", ())] if N >= 2 else []
 
     def thunk():
         sp = I.call(SequenceParameters, [s], {})
-        return I.call(sp.get_SCD, [], {})
+        first = I.call(sp.get_SCD, [], {})
+        # the same object after other read-only queries (they must not disturb the stored charge pattern)
+        for name, args in HIST:
+            I.call(getattr(sp, name), list(args), {})
+        again = I.call(sp.get_SCD, [], {})
+        return first, again
 
     def cex(m):
-        return dict(seq=seq_of_model(m, vs))
+        return dict(seq=seq_of_model(m, vs), prelude=prelude, history=[[n, list(a)] for n, a in HIST])
 
-    def on_return(ob, val, m):
+    def on_return(ob, val2, m):
+        val, again = val2
         d = zreal(val)
+        prove_sum_close(ob, zreal(again) if is_sym(again) else rv(float(again)), [d], TOL, "SCD unchanged after other read-only queries on the same object (N=%d)" % N, cex)
         prove_sum_close(ob, d, terms, TOL, "SCD == Sawle-Ghosh definition (N=%d)" % N, cex)
         # fewer than two charged residues -> exactly 0
         ncharged = count([z3.Or(p, q) for p, q in zip(pos, neg)])
@@ -57,12 +67,19 @@ def run_item(item):
 
 def replay(cex):
     from localcider.sequenceParameters import SequenceParameters
+    run_prelude(cex.get("prelude"))
     seq = cex["seq"]
     want = S.scd_exact_float(seq)
     try:
-        got = SequenceParameters(seq).get_SCD()
+        sp = SequenceParameters(seq)
+        got = sp.get_SCD()
+        for name, args in cex.get("history", []):
+            getattr(sp, name)(*args)
+        again = sp.get_SCD()
     except Exception as ex:
         return True, "get_SCD(%s) raised %s: %s" % (seq, type(ex).__name__, ex)
+    if abs(float(again) - float(want)) > TOL:
+        return True, "seq=%s get_SCD after %r on the same object = %r, definition %r" % (seq, cex.get("history"), again, float(want))
     ncharged = sum(1 for c in seq if c in "KRDE")
     bad = abs(float(got) - float(want)) > TOL or (ncharged < 2 and got != 0)
     return bad, "seq=%s get_SCD=%r definition=%r" % (seq, got, float(want))
